@@ -64,7 +64,10 @@ fn main() {
         },
         "show" => {
             let s: u64 = get("--seed").and_then(|s| s.parse().ok()).unwrap_or(0);
-            let (u, _) = build::seeded_universe(s, 0, &opts.tier);
+            let u = match get("--label") {
+                Some(l) => build::universe_by_label(&l, &opts),
+                None => build::seeded_universe(s, 0, &opts.tier).0,
+            };
             println!("{}", vmodel::render::program(&u));
             0
         }
